@@ -441,3 +441,24 @@ package plugins
 //@   ensures same_connection_as_the_wrapped_writer: implements(sr.ResponseWriter, http.Hijacker) ==> result0.dyn == hconn_tag(ptr(sr.ResponseWriter)) && result0.ref == hconn_val(ptr(sr.ResponseWriter)) && ptr(result1) == hbrw(ptr(sr.ResponseWriter))
 //@   ensures unsupported_is_an_error: !implements(sr.ResponseWriter, http.Hijacker) ==> result2 != nil
 //@   modifies http.ResponseWriter.hijacked
+
+// C18 "starts a working proxy": the headers plugin sets configured names and values on every request and response; the
+// transport refuses a request with an invalid header, so the factory must refuse them. The two tests are under
+// contract; the factory's loop over the configured map (map iteration) is outside the subset.
+//@ pred valueByte(b int) := (b >= 32 || b == 9) && b != 127
+//@ func validHeaderName
+//@   props C18
+//@   ensures exact: result == tokenName(s)
+//@ loop validHeaderName #0
+//@   props C18
+//@   invariant idx: 0 <= i && i <= len(s) && len(s) > 0
+//@   invariant seen: forall k int :: {byteAt(s, k)} 0 <= k && k < i ==> tokenByte(byteAt(s, k))
+//@   decreases len(s) - i
+//@ func validHeaderValue
+//@   props C18
+//@   ensures exact: result == (forall k int :: {byteAt(s, k)} 0 <= k && k < len(s) ==> valueByte(byteAt(s, k)))
+//@ loop validHeaderValue #0
+//@   props C18
+//@   invariant idx: 0 <= i && i <= len(s)
+//@   invariant seen: forall k int :: {byteAt(s, k)} 0 <= k && k < i ==> valueByte(byteAt(s, k))
+//@   decreases len(s) - i
